@@ -18,7 +18,15 @@ Ltac pow2 :=
   repeat match goal with
   | |- context[2 ^ ?k] => let v := eval vm_compute in (2 ^ k) in change (2 ^ k) with v
   end.
-Ltac fok := repeat constructor; cbn [fst snd]; pow2; try lia.
+(** lia without the boolean hypotheses (ZifyBool spends seconds on hypotheses
+    like [row_ok X r = true]) *)
+Ltac qlia :=
+  solve [ repeat match goal with
+                 | H : _ = true |- _ => clear H
+                 | H : _ = false |- _ => clear H
+                 end; lia ].
+Ltac flia := first [ qlia | lia ].
+Ltac fok := repeat constructor; cbn [fst snd]; pow2; try flia.
 
 Lemma to_outcome_ok r i n : r = ROk i -> i_size i = n -> to_outcome r = Ok i n.
 Proof. intros -> <-. reflexivity. Qed.
@@ -53,12 +61,12 @@ Proof.
     xfield Hok. reflexivity. }
   apply to_outcome_ok.
   - core_row r Hin Hf Hl Hsel Hopc Hopc.
-    2: { change (f_size (fmt_format SOPP)) with 4. lia. }
+    2: { change (f_size (fmt_format SOPP)) with 4. flia. }
     cbn [dispatch]. unfold decode_sopp. xfield Hok.
     unfold spec_inst, base_inst. cbn [d_row]. rewrite Hf.
     change (i_row (inst0 (fmt_format SOPP) r)) with r.
     destruct (r_opcode r =? 12).
-    + rewrite !extract_bits_spec by lia. pow2. rewrite N.div_1_r. reflexivity.
+    + rewrite !extract_bits_spec by flia. pow2. rewrite N.div_1_r. reflexivity.
     + reflexivity.
   - unfold spec_inst. destruct (r_opcode r =? 12); reflexivity.
 Qed.
@@ -79,7 +87,7 @@ Lemma literal_pre p c len w1 sz lsz :
 Proof.
   intros H. destruct p; try reflexivity.
   destruct (H eq_refl) as [H8 ->]. unfold literal. cbn [pre_operand is_lit with_count].
-  cbn. destruct (N.ltb_spec len 8); [lia|]. reflexivity.
+  cbn. destruct (N.ltb_spec len 8); [flia|]. reflexivity.
 Qed.
 
 Lemma with_count_pre0 p : with_count (pre_operand p) 0 = pre_operand p.
@@ -101,20 +109,20 @@ Proof. destruct p; try reflexivity. discriminate. Qed.
 
 Lemma code_bound_scalar p : opnd_wf p = true -> opnd_scalar p = true -> code_of p < 256.
 Proof.
-  destruct p; cbn [opnd_wf opnd_scalar code_of]; intros H S; try discriminate; try lia.
-  - unfold special_reg in H. split_ifs_in H; try discriminate; lia.
-  - destruct (0 <=? v)%Z eqn:?; lia.
-  - unfold float_bits in H. split_ifs_in H; try discriminate; lia.
+  destruct p; cbn [opnd_wf opnd_scalar code_of]; intros H S; try discriminate; try flia.
+  - unfold special_reg in H. split_ifs_in H; try discriminate; flia.
+  - destruct (0 <=? v)%Z eqn:?; flia.
+  - unfold float_bits in H. split_ifs_in H; try discriminate; flia.
 Qed.
 
 Lemma code_bound_sdst p : opnd_wf p = true -> opnd_sdst p = true -> code_of p < 128.
-Proof. destruct p; cbn [opnd_wf opnd_sdst code_of]; intros H S; try discriminate; lia. Qed.
+Proof. destruct p; cbn [opnd_wf opnd_sdst code_of]; intros H S; try discriminate; flia. Qed.
 
 Lemma sdst_nolit p : opnd_sdst p = true -> opnd_is_lit p = false.
 Proof. destruct p; try reflexivity; discriminate. Qed.
 
 Lemma lit_bound p : opnd_wf p = true -> lit_value p < 4294967296.
-Proof. destruct p; cbn [opnd_wf lit_value]; intros; lia. Qed.
+Proof. destruct p; cbn [opnd_wf lit_value]; intros; flia. Qed.
 
 (* ------------------------------------------------------------------ from decode_core to bytes *)
 
@@ -129,10 +137,10 @@ Proof.
   intros H0 H1 Hc Hs. unfold encode. unfold dsize in *. destruct (words d) as [w0 [w1|]]; cbn [fst snd] in *.
   - rewrite <- app_assoc. rewrite decode_bytes by exact H0.
     apply to_outcome_ok; [|exact Hs]. apply Hc.
-    + rewrite app_length. change (List.length (bytes_of_word w1)) with 4%nat. lia.
+    + rewrite app_length. change (List.length (bytes_of_word w1)) with 4%nat. flia.
     + intros w E. inversion E; subst. apply le32_bytes. apply H1; reflexivity.
   - rewrite app_nil_r. rewrite decode_bytes by exact H0.
-    apply to_outcome_ok; [|exact Hs]. apply Hc; [lia|]. intros w E; discriminate.
+    apply to_outcome_ok; [|exact Hs]. apply Hc; [flia|]. intros w E; discriminate.
 Qed.
 
 (** the preamble of Decode for the encoding of a description of row [r] *)
@@ -175,13 +183,13 @@ Proof.
       rewrite (getop_code dst Hd1). cbn [bind]. rewrite (pre_nolit dst (sdst_nolit dst Hd2)).
       unfold spec_inst, base_inst. cbn [d_row].
       destruct (row_ok_spec _ _ Hr) as (_ & Hf & _). rewrite Hf. reflexivity.
-    + rewrite (drop_div fs Hok 23 _ eq_refl). cbn [pack]. pow2. lia.
+    + rewrite (drop_div fs Hok 23 _ eq_refl). cbn [pack]. pow2. flia.
     + unfold retrieve_opcode. cbn [cand_fmt]. change (f_oplo (fmt_format SOPK)) with 23.
       change (f_ophi (fmt_format SOPK)) with 27. xfield Hok. reflexivity.
     + unfold retrieve_opcode. change (f_oplo (fmt_format SOPK)) with 23.
       change (f_ophi (fmt_format SOPK)) with 27. xfield Hok. reflexivity.
-    + change (f_size (fmt_format SOPK)) with 4. lia.
-    + lia.
+    + change (f_size (fmt_format SOPK)) with 4. flia.
+    + flia.
   - reflexivity.
 Qed.
 
@@ -218,8 +226,8 @@ Proof.
     + rewrite (drop_div fs Hok 23 _ eq_refl). reflexivity.
     + opc SOP1 8 15 Hok.
     + opc SOP1 8 15 Hok.
-    + change (f_size (fmt_format SOP1)) with 4. destruct (opnd_is_lit s0); lia.
-    + destruct (opnd_is_lit s0); lia.
+    + change (f_size (fmt_format SOP1)) with 4. destruct (opnd_is_lit s0); flia.
+    + destruct (opnd_is_lit s0); flia.
   - unfold spec_inst, base_inst, dsize. cbn [d_row words snd]. reflexivity.
 Qed.
 
@@ -252,8 +260,8 @@ Proof.
     + rewrite (drop_div fs Hok 23 _ eq_refl). reflexivity.
     + opc SOPC 16 22 Hok.
     + opc SOPC 16 22 Hok.
-    + change (f_size (fmt_format SOPC)) with 4. destruct (opnd_is_lit s0), (opnd_is_lit s1); lia.
-    + destruct (opnd_is_lit s0), (opnd_is_lit s1); lia.
+    + change (f_size (fmt_format SOPC)) with 4. destruct (opnd_is_lit s0), (opnd_is_lit s1); flia.
+    + destruct (opnd_is_lit s0), (opnd_is_lit s1); flia.
   - unfold spec_inst, base_inst, dsize. cbn [d_row words snd]. reflexivity.
 Qed.
 
@@ -288,10 +296,10 @@ Proof.
       unfold spec_inst, base_inst, dsize. cbn [d_row words snd]. rowfmt Hr.
       destruct (contains "64" (r_name r)); rewrite ?with_count_spec;
         destruct (opnd_is_lit s0), (opnd_is_lit s1); try discriminate; reflexivity.
-    + rewrite (drop_div fs Hok 23 _ eq_refl). cbn [pack]. pow2. lia.
+    + rewrite (drop_div fs Hok 23 _ eq_refl). cbn [pack]. pow2. flia.
     + opc SOP2 23 29 Hok.
     + opc SOP2 23 29 Hok.
-    + change (f_size (fmt_format SOP2)) with 4. destruct (opnd_is_lit s0), (opnd_is_lit s1); lia.
-    + destruct (opnd_is_lit s0), (opnd_is_lit s1); lia.
+    + change (f_size (fmt_format SOP2)) with 4. destruct (opnd_is_lit s0), (opnd_is_lit s1); flia.
+    + destruct (opnd_is_lit s0), (opnd_is_lit s1); flia.
   - unfold spec_inst, base_inst, dsize. cbn [d_row words snd]. destruct (contains "64" (r_name r)); reflexivity.
 Qed.
